@@ -31,9 +31,9 @@ P = {
                {"module": "I_Typha", "cfg": "MC_I_Typha_live.cfg", "workers": 4, "timeout": 900, "thorough_timeout": 1700,
                 "heap": "4g"}],
     "gen": {"module": "Gen_Typha", "cfg": "Gen_cover.cfg", "workers": 1,
-            "max": 500, "thorough_max": 9000, "timeout": 900, "thorough_timeout": 1700},
+            "max": 500, "thorough_max": 6000, "timeout": 900, "thorough_timeout": 1700},
     "driver": {"cmd": "typha", "timeout": 1700},
-    "n_random": (150, 3000),
+    "n_random": (150, 2000),
     "trace": {"module": "T_Typha", "cfg": "T_Typha.cfg", "timeout": 900, "heap": "4g"},
     "chunk": 120000,
     "signature": signature,
@@ -78,7 +78,7 @@ def run(ctx):
     if not ctx.replay and not ctx.violations and not ctx.quick:
         P2 = dict(P)
         P2["design"] = []
-        P2["gen"] = {"module": "Gen_Typha", "cfg": "Gen_sim.cfg", "simulate": {"num": 300, "depth": 3000},
+        P2["gen"] = {"module": "Gen_Typha", "cfg": "Gen_sim.cfg", "simulate": {"num": 100, "depth": 3000},
                      "timeout": 1700, "thorough_timeout": 1700}
         P2["n_random"] = (0, 0)
         _std(ctx, P2)
